@@ -54,6 +54,7 @@ struct TaskCtl {
   int in_static_init = 0;  // > 0: between guard_acquire and release/abort
   int no_preempt = 0;      // > 0: yields do not switch (sweeps)
   uint32_t op_index = 0;   // index of the operation being executed
+  int op_kind = -1;        // its kind (for the death line)
   uint32_t yidx = 0;       // yield points seen in this operation
   uint32_t alloc_idx = 0;  // allocation points seen in this operation
   uint32_t scalar_idx = 0; // scalar-operation points seen in this operation
@@ -162,6 +163,7 @@ void live_reset();                  // forget them (after a deadlocked world)
 // ---------------------------------------------------------------- process
 void process_init();  // real thread spawn/join, handlers, sanitizer options
 void set_death_context(long run, const char *phase);
+void set_op_namer(const char *(*namer)(int));
 int tsan_report_count();
 
 const char *flavour_name();
